@@ -9,6 +9,7 @@ import Bcder.Props.C07b
 #print axioms Bcder.Props.C07b.advance_past
 #print axioms Bcder.Props.C07b.calls_sim
 #print axioms Bcder.Props.C07b.oss_is_conforming_source
+#print axioms Bcder.Props.C07b.oss_prim_is_conforming_source
 #print axioms Bcder.Props.C07.source_independence_closed
 #print axioms Bcder.Props.C07.capture_one_independent
 #print axioms Bcder.Props.C07.octet_string_independent
